@@ -16,6 +16,12 @@
      "... without starting a second loop"
                                    LoopStart needs no loop alive; the number of LoopStart minus
                                    the number of LoopStop ([loops_alive]) stays within 0..1.
+     A description may declare TLParamsLocked with a <pValueCopy>: the lock is then mirrored into a
+     second register, written right after the register behind <pValue> ([CopyTL b]: admissible exactly
+     where [SetTLParamsLocked b] would be, once that register holds b).
+     [BankRead k] is a device read of slot k of a selector-addressed register bank (a parameter
+     access of the application, no part of the acquisition protocol), [BankPoke k v] is the
+     environment: the device's own memory of slot k changes to v behind the host's back.
    Nothing here mentions Camera, its methods or its failure handling. *)
 From Cam Require Export Outcome.
 
@@ -24,8 +30,12 @@ Inductive effect :=
 | EnableStreaming | SetTLParamsLocked (b : bool) | AcqStart | AcqStop
 | LoopStart | LoopStop | DisableStreaming | CtrlClose | StrmClose
 | GenApiRead                                   (* device read of the TLParamsLocked register *)
-| LoadCtxt (tl start stop : bool)              (* host: camera.ctxt = Some(description); which of the
-                                                  three SFNC nodes it defines with the right interface *)
+| CopyTL (b : bool)                            (* write of the <pValueCopy> mirror of TLParamsLocked *)
+| BankRead (k : Z)                             (* device read of slot k of the register bank *)
+| BankPoke (k v : Z)                           (* environment: the device's bank slot k becomes v *)
+| LoadCtxt (tl start stop copy : bool)         (* host: camera.ctxt = Some(description); which of the
+                                                  three SFNC nodes it defines with the right interface,
+                                                  and whether TLParamsLocked has a <pValueCopy> *)
 | ClearCache.                                  (* host: cached register values dropped *)
 
 Definition effect_eqb (a b : effect) : bool :=
@@ -36,43 +46,61 @@ Definition effect_eqb (a b : effect) : bool :=
   | CtrlClose, CtrlClose | StrmClose, StrmClose | GenApiRead, GenApiRead
   | ClearCache, ClearCache => true
   | SetTLParamsLocked x, SetTLParamsLocked y => Bool.eqb x y
-  | LoadCtxt a1 a2 a3, LoadCtxt b1 b2 b3 => Bool.eqb a1 b1 && Bool.eqb a2 b2 && Bool.eqb a3 b3
+  | CopyTL x, CopyTL y => Bool.eqb x y
+  | BankRead j, BankRead k => j =? k
+  | BankPoke j v, BankPoke k w => (j =? k) && (v =? w)
+  | LoadCtxt a1 a2 a3 a4, LoadCtxt b1 b2 b3 b4 =>
+      Bool.eqb a1 b1 && Bool.eqb a2 b2 && Bool.eqb a3 b3 && Bool.eqb a4 b4
   | _, _ => false
   end.
 
 (* device + stream handle as seen from outside *)
 Record dev := { d_copen : bool; d_sopen : bool; d_enabled : bool; d_locked : bool;
-                d_acq : bool; d_alive : bool }.
+                d_acq : bool; d_alive : bool;
+                d_copy : bool                  (* the mirror register of TLParamsLocked *) }.
 
 Definition dev0 : dev :=
   {| d_copen := false; d_sopen := false; d_enabled := false; d_locked := false;
-     d_acq := false; d_alive := false |}.
+     d_acq := false; d_alive := false; d_copy := false |}.
 
 Definition dstep (d : dev) (e : effect) : dev :=
   match e with
   | CtrlOpen => {| d_copen := true; d_sopen := d_sopen d; d_enabled := d_enabled d;
-                   d_locked := d_locked d; d_acq := d_acq d; d_alive := d_alive d |}
+                   d_locked := d_locked d; d_acq := d_acq d; d_alive := d_alive d;
+                 d_copy := d_copy d |}
   | CtrlClose => {| d_copen := false; d_sopen := d_sopen d; d_enabled := d_enabled d;
-                    d_locked := d_locked d; d_acq := d_acq d; d_alive := d_alive d |}
+                    d_locked := d_locked d; d_acq := d_acq d; d_alive := d_alive d;
+                 d_copy := d_copy d |}
   | StrmOpen => {| d_copen := d_copen d; d_sopen := true; d_enabled := d_enabled d;
-                   d_locked := d_locked d; d_acq := d_acq d; d_alive := d_alive d |}
+                   d_locked := d_locked d; d_acq := d_acq d; d_alive := d_alive d;
+                 d_copy := d_copy d |}
   | StrmClose => {| d_copen := d_copen d; d_sopen := false; d_enabled := d_enabled d;
-                    d_locked := d_locked d; d_acq := d_acq d; d_alive := d_alive d |}
+                    d_locked := d_locked d; d_acq := d_acq d; d_alive := d_alive d;
+                 d_copy := d_copy d |}
   | EnableStreaming => {| d_copen := d_copen d; d_sopen := d_sopen d; d_enabled := true;
-                          d_locked := d_locked d; d_acq := d_acq d; d_alive := d_alive d |}
+                          d_locked := d_locked d; d_acq := d_acq d; d_alive := d_alive d;
+                 d_copy := d_copy d |}
   | DisableStreaming => {| d_copen := d_copen d; d_sopen := d_sopen d; d_enabled := false;
-                           d_locked := d_locked d; d_acq := d_acq d; d_alive := d_alive d |}
+                           d_locked := d_locked d; d_acq := d_acq d; d_alive := d_alive d;
+                 d_copy := d_copy d |}
   | SetTLParamsLocked b => {| d_copen := d_copen d; d_sopen := d_sopen d; d_enabled := d_enabled d;
-                              d_locked := b; d_acq := d_acq d; d_alive := d_alive d |}
+                              d_locked := b; d_acq := d_acq d; d_alive := d_alive d;
+                 d_copy := d_copy d |}
   | AcqStart => {| d_copen := d_copen d; d_sopen := d_sopen d; d_enabled := d_enabled d;
-                   d_locked := d_locked d; d_acq := true; d_alive := d_alive d |}
+                   d_locked := d_locked d; d_acq := true; d_alive := d_alive d;
+                 d_copy := d_copy d |}
   | AcqStop => {| d_copen := d_copen d; d_sopen := d_sopen d; d_enabled := d_enabled d;
-                  d_locked := d_locked d; d_acq := false; d_alive := d_alive d |}
+                  d_locked := d_locked d; d_acq := false; d_alive := d_alive d;
+                 d_copy := d_copy d |}
   | LoopStart => {| d_copen := d_copen d; d_sopen := d_sopen d; d_enabled := d_enabled d;
-                    d_locked := d_locked d; d_acq := d_acq d; d_alive := true |}
+                    d_locked := d_locked d; d_acq := d_acq d; d_alive := true;
+                 d_copy := d_copy d |}
   | LoopStop => {| d_copen := d_copen d; d_sopen := d_sopen d; d_enabled := d_enabled d;
-                   d_locked := d_locked d; d_acq := d_acq d; d_alive := false |}
-  | GenApiFetch | GenApiRead | LoadCtxt _ _ _ | ClearCache => d
+                   d_locked := d_locked d; d_acq := d_acq d; d_alive := false;
+                 d_copy := d_copy d |}
+  | CopyTL b => {| d_copen := d_copen d; d_sopen := d_sopen d; d_enabled := d_enabled d;
+                  d_locked := d_locked d; d_acq := d_acq d; d_alive := d_alive d; d_copy := b |}
+  | GenApiFetch | GenApiRead | LoadCtxt _ _ _ _ | ClearCache | BankRead _ | BankPoke _ _ => d
   end.
 
 Definition replay_from (d : dev) (t : list effect) : dev := fold_left dstep t d.
@@ -89,6 +117,8 @@ Definition allowed (d : dev) (e : effect) : bool :=
   | AcqStop => negb (d_alive d)
   | SetTLParamsLocked false => negb (d_alive d) && negb (d_acq d)
   | DisableStreaming => negb (d_alive d) && negb (d_acq d) && negb (d_locked d)
+  | CopyTL true => d_enabled d && negb (d_alive d) && d_locked d
+  | CopyTL false => negb (d_alive d) && negb (d_acq d) && negb (d_locked d)
   | _ => true
   end.
 
